@@ -5,11 +5,12 @@ EXE = 'c15'
 THEOREMS = ['Tbox.C15.C15_terminates', 'Tbox.C15.C15_terminates_bound', 'Tbox.C15.C15_terminates_reply',
             'Tbox.C15.C15_no_uninit_no_oob', 'Tbox.C15.C15_only_encoded', 'Tbox.C15.C15_only_encoded_callbacks',
             'Tbox.C15.C15_unknown_ignored',
-            'Tbox.C15.C15_callback_at_most_once', 'Tbox.C15.C15_cancelled_never_called',
-            'Tbox.C15.C15_no_callback_once_dead', 'Tbox.C15.C15_called_log', 'Tbox.C15.C15_callback_once_partial',
+            'Tbox.C15.C15_callback_once', 'Tbox.C15.C15_callback_at_most_once', 'Tbox.C15.C15_cancelled_never_called',
+            'Tbox.C15.C15_no_callback_once_dead', 'Tbox.C15.C15_called_log',
             'Tbox.C15.C15_outstanding_at_most_5_ticks', 'Tbox.C15.C15_timer_armed_while_outstanding',
-            'Tbox.C15.C15_timeout_early_counterexample', 'Tbox.C15.C15_callback_after_erase',
-            'Tbox.C15.C15_orig_selfcancel_counterexample', 'Tbox.C15.C15_callback_once_counterexample',
+            'Tbox.C15.C15_alloc_finds_free_id', 'Tbox.C15.C15_callback_after_erase',
+            'Tbox.C15.C15_orig_idwrap_counterexample', 'Tbox.C15.C15_orig_timeout_early_counterexample',
+            'Tbox.C15.C15_orig_selfcancel_counterexample',
             'Tbox.C15.C15_orig_terminates_counterexample', 'Tbox.C15.C15_orig_uninit_counterexample_short',
             'Tbox.C15.C15_orig_uninit_counterexample_label', 'Tbox.C15.C15_orig_only_encoded_counterexample']
 import vlib
@@ -23,13 +24,13 @@ BATCH = 150
 MAX_REPORT = 6
 SHRINK_TESTS = 60
 TRUSTED = ['model lean/TboxModel/C15/{Deserializer,Model}.lean is hand-written from modules/network/dns_request.cpp, '
-           'modules/util/serializer.cpp (Deserializer) and modules/eventx/timeout_monitor_impl.hpp with patches/C15-01,-02,-03 applied; '
+           'modules/util/serializer.cpp (Deserializer) and modules/eventx/timeout_monitor_impl.hpp with patches/C15-01..04 applied; '
            'tied by differential runs',
            'harness/vtime.h virtual clock (libc interposition) and harness/loopdrv.h; the loop, TimerEvent and UdpSocket are the real ones',
            'uninitialised reads are expressed in the model as reads of an unset destination; on the implementation side only '
            'ASan/UBSan observe memory errors (an uninitialised read that does not change an observable is not seen at run time)']
 ASSUMPTIONS = ['no datagram arrives on the real UDP socket during a run (queries go to 127.0.0.1-3:53, nothing listens)',
-               'fewer than 65 535 lookups are started within five ticks of any lookup (16-bit wire id; C15_callback_once_partial says what happens otherwise)',
+               'the refusal when all 65 535 ids are outstanding is modelled and proved (C15_alloc_finds_free_id) but not generated (the list-based model is quadratic there); id wrap itself is generated (churn)',
                'the clock advances in whole seconds between operations (one timer firing per tick)']
 RULE = ('op sequences (servers/defscript/lookup/cancel/running/recv/tick; a lookup\'s callback is a script of API calls — new lookups with their own scripts, cancels of other lookups and of the own one — executed inside the reply/error/all-servers-failed/timeout callback) from props/C15/plugin.py: replies built from a structured DNS '
         'encoder (A/CNAME/other records, compression pointers, chains of 1..18 pointers) then mutated (truncation at every '
@@ -266,6 +267,26 @@ def gen_case(rng, hostile, scripted=False):
     return ops
 
 
+def gen_wrap(rng):
+    """the id counter wraps (65 535 silent lookup+cancel pairs) while lookups are outstanding / completed ones still
+    have their entry in the timeout ring; then new lookups land on or next to those ids"""
+    ops = []
+    if rng.random() < 0.5: ops += ['defscript ' + rng.choice(['L0', 'L0,S', 'C1,L0', '-'])]
+    for _ in range(rng.choice([1, 2, 3])): ops.append(rng.choice(['lookup', 'lookup 0']))
+    if rng.random() < 0.5: ops.append('recv ' + hx(u16(rng.choice([1, 2])) + u16(rng.choice([0x8183, 0x8181])) + u16(1) + u16(0) + u16(0) + u16(0) + b'\x01a\x00' + u16(1) + u16(1)))
+    if rng.random() < 0.4: ops.append('cancel %d' % rng.choice([1, 2, 3]))
+    ops += ['tick'] * rng.choice([0, 0, 1, 2, 3])
+    ops.append('churn %d' % rng.choice([65535, 65535, 65534, 65533, 65536, 65532]))
+    for _ in range(rng.choice([1, 2, 4])): ops.append(rng.choice(['lookup', 'lookup 0', 'burst 2']))
+    for i in range(1, 6): ops.append('running %d' % i)
+    k = rng.choice([2, 3, 5])
+    ops += ['tick'] * k
+    for i in range(1, 6): ops.append('running %d' % i)
+    ops += ['tick'] * rng.choice([5, 6, 11])
+    for i in range(1, 8): ops.append('running %d' % i)
+    return ops
+
+
 def directed():
     q = b'\x03www\x07example\x03com\x00' + u16(1) + u16(1)
     hdr = lambda i, fl, qd, an: u16(i) + u16(fl) + u16(qd) + u16(an) + u16(0) + u16(0)
@@ -274,7 +295,7 @@ def directed():
     good = hdr(1, 0x8180, 1, 2) + q + cn_rec + a_rec
     # malformed op lines: both sides must say bad-op
     yield ['lookup', 'recv 0g', 'recv', 'cancel x', 'cancel 65536', 'servers 4', 'frob', 'tick 1', 'running',
-           'defscript', 'defscript L64', 'defscript C65536', 'defscript L1,', 'defscript X', 'lookup 64', 'lookup x', 'touch maybe', 'defscript S,L0,C7']
+           'churn 0', 'churn 70001', 'churn x', 'burst 5001', 'burst', 'defscript', 'defscript L64', 'defscript C65536', 'defscript L1,', 'defscript X', 'lookup 64', 'lookup x', 'touch maybe', 'defscript S,L0,C7']
     # the well-formed reply, a duplicate, a late reply, then the ring drains
     yield ['lookup', 'recv ' + hx(good), 'recv ' + hx(good), 'running 1'] + ['tick'] * 6
     # every truncation offset of the well-formed reply, then the intact one
@@ -318,6 +339,11 @@ def directed():
     yield ['defscript C1,S,L1', 'defscript S,C2', 'lookup 0'] + ['tick'] * 5 + ['running 1', 'running 2'] + ['tick'] * 5 + ['running 2']
     yield ['servers 2', 'defscript S,L0', 'lookup 0', 'recv ' + hx(sf(1, 2)), 'recv ' + hx(sf(1, 5)), 'running 1', 'running 2', 'touch off',
            'recv ' + hx(sf(2, 2)), 'recv ' + hx(sf(2, 2)), 'running 3'] + ['tick'] * 6
+    # the 16-bit id counter wraps onto an outstanding lookup (as found: overwritten, never called back) ...
+    yield ['lookup', 'churn 65535', 'lookup', 'running 1', 'running 2'] + ['tick'] * 5 + ['running 1', 'tick']
+    # ... and onto an id whose stale ring entry is still in the wheel (as found: the new lookup times out early)
+    yield ['lookup', 'recv ' + hx(sf(1, 3)), 'tick', 'tick', 'churn 65535', 'lookup', 'tick', 'tick', 'tick', 'running 1', 'running 2', 'tick', 'tick', 'running 1', 'running 2', 'tick']
+    yield ['defscript L0', 'lookup 0', 'lookup', 'tick', 'churn 65534', 'lookup 0', 'lookup', 'burst 3', 'running 1', 'running 2', 'running 3'] + ['tick'] * 11
     # hop limit boundary: chains of 15..18 pointers
     import random
     r0 = random.Random(15)
@@ -333,6 +359,8 @@ def gen(rng, tier):
         yield gen_case(rng, hostile=(i % 4 != 0))
     for i in range(n):
         yield gen_case(rng, hostile=(i % 3 == 0), scripted=True)
+    for i in range(6 if tier == 'quick' else 40):
+        yield gen_wrap(rng)
     if tier == 'thorough':
         # every truncation offset and every single-byte overwrite (a few values) of two structured replies
         for _ in range(2):
@@ -370,10 +398,10 @@ def fingerprint(ops, d):
 LEVEL_TEXT = ('Lean 4 theorems over a hand-written model of the DNS client: name decoding needs fuel <= 17*(len+2) (hop limit), '
               'no parse outcome reads an unset destination and every dereferenced byte range lies inside the datagram, every reported '
               'address/name is decoded from in-bounds bytes of completely present records, each lookup\'s callback runs at most once, '
-              'never once cancelled/completed, no lookup is outstanding for five ticks (ring invariant, adds made during a tick included), and (no 16-bit id handed out while still outstanding or in the ring) no lookup is ever lost — all for executions whose callbacks issue and cancel lookups; '
+              'C15_callback_once at full strength: each lookup\'s callback runs exactly once — a reply/error before, or a timeout exactly at, its fifth tick — unless cancelled (then never) or refused, for every history incl. id wrap and callbacks that issue and cancel lookups (the id allocation provably finds a free id: pigeonhole); '
               'counterexample theorems for the unpatched parser; the model is tied to the code on every run by differential execution '
               '(ASan+UBSan build of the working tree, virtual clock)')
 LEVEL_NOTE = ('trusted: Lean kernel, hand-written model + differential tie (coverage bounded by the generator, measured in evidence); '
-              'the no-lookup-lost part of callback-once is proved under a decidable no-id-reuse hypothesis (16-bit wire id); "a timeout never comes before the fifth tick" is false under id wrap (counterexample theorem) and tied by the differential runs only')
+              'counterexample theorems for the as-found parser, callback order and id allocation')
 TECHNIQUE = 'Lean 4 invariant proofs (parser Hoare logic with explicit fuel, pending-map/timeout-ring invariant) + model/implementation correspondence check'
 DESIGN_REF = 'DESIGN.md §6 C15, §7 row 12'
